@@ -122,6 +122,19 @@ impl Lsp {
         }
         Some(out)
     }
+    /// outgoing calls with their call-site ranges, as one normalised string
+    pub fn outgoing_with_ranges(&self, item: &Value) -> Option<String> {
+        let p = serde_json::from_value(json!({"item": item})).ok()?;
+        let r = poll_now(self.backend().handle_outgoing_calls(p)).ok().flatten()?;
+        let mut out = vec![];
+        for c in r {
+            let v = serde_json::to_value(c).ok()?;
+            let to = v.get("to")?;
+            out.push(format!("{}@{}:{} from {}", to.get("name")?.as_str()?, uri_to_rel(&self.root, to.get("uri")?.as_str()?), to.pointer("/selectionRange/start/line")?.as_u64()? + 1, v.get("fromRanges").map(|x| x.to_string()).unwrap_or_default()));
+        }
+        out.sort();
+        Some(out.join(" | "))
+    }
     /// number of incoming calls
     pub fn incoming(&self, item: &Value) -> Option<Vec<(String, usize, usize)>> {
         let p = serde_json::from_value(json!({"item": item})).ok()?;
